@@ -303,7 +303,7 @@ PROPS["C11"] = {
 
 C02_QUICK = ["c02_p_clr", "c02_p_add", "c02_p_sub", "c02_p_mul", "c02_p_xor", "c02_p_neg", "c02_p_lsl", "c02_p_rlc", "c02_p_rrc", "c02_p_pop", "c02_p_ret", "c02_p_reti",
              "c02_p_stop", "c02_p_di", "c02_p_jmp", "c02_p_jr", "c02_p_jzc", "c02_p_call", "c02_p_dec", "c02_p_dec_inc", "c02_p_dec_const",
-             "c02_d_org", "c02_d_byte", "c02_d_stacksize", "c02_d_programsize", "c02_e_mov_0_0", "c02_e_mov_3_5", "c02_e_ds_1_4", "c02_e_ds_4_0", "c02_e_s_4",
+             "c02_d_org", "c02_d_byte", "c02_d_stacksize", "c02_d_programsize", "c02_e_mov_0_0", "c02_e_mov_3_5", "c02_e_ds_1_4", "c02_e_ds_4_0", "c02_e_s_4", "c02_e_s_2",
              "c02_field_encoders", "c02_canary"]
 
 
